@@ -49,7 +49,7 @@ def _work(job):
 
         hs = [h for h in _load(prop) if h.name == hname]
         h = hs[0]
-        params = h.instances.get(tier, h.instances.get("quick"))[idx]
+        params = (h.instances.get(tier, h.instances.get("quick")) or [])[idx]
         res = engine.run_instance(h, params, tier, seed, replay_dir)
     except BaseException as e:  # worker must always answer
         import traceback
@@ -190,7 +190,7 @@ def main(argv=None):
     replay_dir = os.path.join(VERIF, "replays")
     jobs = []
     for h in hs:
-        inst = h.instances.get(tier, h.instances.get("quick"))
+        inst = h.instances.get(tier, h.instances.get("quick")) or []
         for i in range(len(inst)):
             jobs.append((a.prop, h.name, i, tier, seed, replay_dir))
     results = _schedule(jobs, a.j, hard_s=(600 if tier == "quick" else 3600))
